@@ -30,17 +30,24 @@ def run(ch, tier):
     cfp = fp(sp.fingerprint())
     for r in standard_ops(sim, ch, tier, delays=True):
         res.stats['steps'] += 1
+        missed_error = False
         if r.sel is not None and r.sel.err:
             if r.exc is not None and type(r.exc).__name__ == r.sel.err:
                 res.stats['error_steps_skipped'] += 1
                 continue
-            raise Abandon('C04: predicted %s, got %s' % (r.sel.err, r.exc_name()))
+            if r.exc is not None:
+                raise Abandon('C04: predicted %s, got %s' % (r.sel.err, r.exc_name()))
+            # the error C04 asks for was not raised, but the call returned normally: the configuration it
+            # left behind is C02's business whatever the reason
+            missed_error = True
         if r.exc is not None:
             raise Abandon('C04/other: unexpected %s' % r.exc_name())
         why = ref.legal(sp, r.post)
         if why:
             return res.fail('illegal-configuration', why, chart=sp.describe(), pre=sorted(r.pre),
                             fired=['t%d' % i for i in r.fired_ids()], post=sp.canon(r.post), step=r.k)
+        if missed_error:
+            raise Abandon('C04: predicted %s, got None (configuration still legal)' % r.sel.err)
         if was_final and (r.post or not sim.it.final):
             return res.fail('final-not-sticky', 'configuration %s after the statechart was final' % sorted(r.post),
                             chart=sp.describe(), step=r.k)
